@@ -411,7 +411,7 @@ def check(pid, tier='quick', base_seed=0, runs=None, wall_cap=None, corpus=True,
         if not tot['probes'].get(k):
             warn.append('probe %s stuck at zero' % k)
     evals = tot['n'] + (pre.get('evaluations', 0) if pre else 0) + corpus_n
-    distinct = len(tot['digests']) + (pre.get('distinct', 0) if pre else 0)
+    distinct = len(tot['digests'])
     cov = {
         'evaluations': evals,
         'distinct_nontrivial': distinct,
